@@ -33,6 +33,9 @@ def main(tier, seed):
                 tooltier.emit_rust.assign_abi_names(prog)
             if i % 3 == 0 and tooltier.add_special_methods(prog, random.Random("c15sp/%s/%s/%s" % (seed, i, b)), b):
                 tooltier.emit_rust.assign_abi_names(prog)
+            if i % 10 == 4 and tooltier.add_static_opaque_refs(prog, random.Random("c15st/%s/%s/%s" % (seed, i, b))):
+                tooltier.emit_rust.assign_abi_names(prog)
+                prods = tooltier.prog_productions(prog)
             if i % 50 == 7 and b == "nanobind":
                 # directed probe (known finding F33): a property whose name is also the name of a sibling method
                 hosts = [t for t in prog.types() if t.kind == "opaque" and not t.lifetimes]
